@@ -28,7 +28,13 @@ def fresh_name(n):
 
 def base_spec(task):
     tree, scheme, ivar, k = task[:4]
-    return add_scheme_S(flatten(tree, scheme, ivar), send_subset=True, counter=True)
+    spec = add_scheme_S(flatten(tree, scheme, ivar), send_subset=True, counter=True)
+    # twins that differ in their guard only (same ends, event, action, priority): both must survive a copy
+    for t in list(spec['transitions']):
+        if t['tid'] % 4 == 0:
+            tid = len(spec['transitions'])
+            spec['transitions'].append(dict(t, tid=tid, guard=t['guard'].replace('G(%d,' % t['tid'], 'G(%d,' % tid)))
+    return spec
 
 
 def sig(R, outcome, step, it, leftovers, ren, drop=()):
